@@ -250,4 +250,16 @@ def fam_mutmsg(full=False):
         add(sd, unk, [0, 1, 2] if full else [0])
     return out
 
+def mk_dprec():
+    rec = StructDef('DpRec', [Field(1, 'default', S('i32'), name='V')])
+    rec.fields.append(Field(2, 'optional', ('struct', rec, True), name='Next'))
+    rec.decl_fields = rec.fields
+    rec.fields.append(Field(3, 'default', ('list', ('struct', rec, False)), name='Kids'))
+    rec.fields.append(Field(4, 'default', ('map', S('i32'), ('struct', rec, False)), name='ByVal'))
+    rec.fields.append(Field(5, 'default', ('map', ('struct', rec, True), S('i32')), name='ByKey'))
+    return rec
+
+DPREC = mk_dprec()
+DPSKIP = StructDef('DpSkip', [Field(1, 'default', S('i32'), name='V')], has_unknown=True)
+
 FAMILIES = {'mutmsg': fam_mutmsg, 'mutmsg_full': lambda: fam_mutmsg(True), 'twin': fam_twin, 'hist': fam_hist, 'threshold': fam_threshold, 'threshold_full': lambda: fam_threshold(True), 'dec2': fam_dec2, 'default': fam_default, 'nocopy': fam_nocopy, 'unknown': fam_unknown, 'ids': fam_ids, 'nest': fam_nest, 'evolve': fam_evolve, 'evolve_full': lambda: fam_evolve(6), 'required': fam_required, 'bytes8': lambda: fam_bytes(8), 'bytes12': lambda: fam_bytes(12), 'scalar': fam_scalar, 'list': fam_list, 'map': fam_map}
